@@ -15,6 +15,10 @@ NamesMedium == NamesOf(PrefixesFull, {"a.dlt", "b.txt"}) \cup NamesOf({<<>>, <<"
 NamesFull == NamesOf(PrefixesFull, FileTokens)
 \* quick (2 members) and thorough (3 members): reduced prefix set
 NamesSmall == NamesOf(PrefixesSmall, {"a.dlt", "b.txt"}) \cup {<<"c1.dlt">>, <<"c[1].dlt">>}
+\* request histories: plain, nested, glob-character, climbing and absolute names (2 members: pairs; thorough: triples / 3 members)
+NamesHist == {<<"a.dlt">>, <<"b.txt">>, <<"d", "a.dlt">>, <<"d", "b.txt">>, <<"e", "a.dlt">>, <<"c1.dlt">>, <<"c[1].dlt">>,
+              <<"..", "a.dlt">>, <<"/", "a.dlt">>}
+HistClasses == {"all", "ext", "dirp", "exact"}
 DirsQuick == {<<"d">>, <<"..", "e">>}
 AllClasses == {"all", "ext", "dirp", "exact", "nofilter"}
 =============================================================================
